@@ -311,6 +311,9 @@ pub struct RecordingWriter {
     pub data: Vec<u8>,
     pub overwrites: Vec<Overwrite>,
     pub out_of_range: Vec<Overwrite>,
+    /// pretend that this many octets were written before `data` (they are not stored): lets a
+    /// history start at positions such as 2^16 or 2^32 without allocating them
+    pub virtual_base: usize,
 }
 
 impl RecordingWriter {
@@ -320,14 +323,20 @@ impl RecordingWriter {
             ..Default::default()
         }
     }
+    pub fn at_position(virtual_base: usize) -> Self {
+        RecordingWriter {
+            virtual_base,
+            ..Default::default()
+        }
+    }
 }
 
 impl Writer for RecordingWriter {
     fn is_empty(&self) -> bool {
-        self.data.is_empty()
+        self.virtual_base == 0 && self.data.is_empty()
     }
     fn len(&self) -> usize {
-        self.data.len()
+        self.virtual_base + self.data.len()
     }
     fn write_bytes(&mut self, bytes: &[u8]) {
         self.data.extend_from_slice(bytes);
@@ -338,13 +347,15 @@ impl Writer for RecordingWriter {
             site: site_of(Location::caller()),
             offset,
             len: bytes.len(),
-            writer_len: self.data.len(),
+            writer_len: self.virtual_base + self.data.len(),
         };
-        if offset.checked_add(bytes.len()).map_or(true, |e| e > self.data.len()) {
+        let inside = offset >= self.virtual_base && offset.checked_add(bytes.len()).map_or(false, |e| e <= self.virtual_base + self.data.len());
+        if !inside {
             self.out_of_range.push(rec);
             return;
         }
-        self.data[offset..offset + bytes.len()].copy_from_slice(bytes);
+        let o = offset - self.virtual_base;
+        self.data[o..o + bytes.len()].copy_from_slice(bytes);
         self.overwrites.push(rec);
     }
     fn write_u8(&mut self, value: u8) {
